@@ -173,6 +173,7 @@ class Execution:
         self.rec.inv = inv
         ev, split = self.backend.start_invocation(fp, pg)
         r.split = split
+        r.ops_at_start = {oid: rec["Status"] for oid, rec in self.backend.ops.items() if rec["Type"] != "EXECUTION"}
         strategy, crash_at = self._strategy(inv)
         sched = ds.Scheduler(strategy, max_steps=sc.get("max_steps", 60000), hang_after=sc.get("hang_after", 90.0))
         sched.now = self.now
